@@ -1,3 +1,4 @@
+mod appgen;
 mod client;
 mod driver;
 mod dump;
